@@ -76,3 +76,93 @@ Corollary bounded_by_frame_limit_refuted :
 Proof.
   split; [apply bounded_agrees_up_to_bound; change (List.length (repeat fresh_fiber 64) <= 64); rewrite repeat_length; lia | apply bounded_refuted_beyond_bound; lia].
 Qed.
+
+(* ---------------------------------------------------------------------------------------------------------------------------
+   Round 9 - objects that ESCAPED from a module body that then failed, across a retry of the import.
+   `failed_snippet_only_definitions` identifies a module with its registry entry; closures are not values of the mini-language.
+   In the VM a closure keeps the module OBJECT it was created in as its globals, and such an object can outlive its registry entry:
+   a body that stores a closure somewhere else (another module, a callback of main, the thrown value, a yielded value) and then
+   fails leaves an object that is reachable only through that closure.  "A failed snippet matters only through the definitions it
+   completed" includes those.  Abstract model: a heap of module objects (identity -> name -> value), a registry (path -> identity)
+   and the two designs of the retry of a failed import:
+     retry_fresh   the entry is dropped and the retry builds a NEW object (vm.rs since 367eb72: `self.modules.remove(&path)`)
+     retry_wipe    the registered object is kept and emptied (seeded change C15-9/2)
+   followed by any definitions the retried body makes (all of them go to the object the retry runs in).
+     fresh_retry_keeps_escaped      under retry_fresh NO global of ANY object that existed before changes, for any body: every
+                                    escaped closure/method/class reads what it read before, whatever the retry does and however it ends
+     wipe_retry_refuted             under retry_wipe a closure of the failed attempt loses a global that attempt had completed
+     reuse_retry_refuted            keeping the object WITHOUT emptying it (the sibling) lets the retry overwrite such a global
+   Tie: props/C15.v states the first on `retry_variant start_import_reloads_dead_src` (regenerated from vm.rs); the implementation
+   side is the directed family `escape_check` of tools/props/C15.py. *)
+From Coq Require Import String.
+
+Definition mheap := nat -> string -> option nat.
+Record mstore := { ms_next : nat; ms_reg : string -> option nat; ms_heap : mheap }.
+
+Definition h_set (h : mheap) (id : nat) (x : string) (v : nat) : mheap :=
+  fun i y => if andb (Nat.eqb i id) (String.eqb y x) then Some v else h i y.
+Definition h_wipe (h : mheap) (id : nat) : mheap := fun i y => if Nat.eqb i id then None else h i y.
+Definition r_set (r : string -> option nat) (p : string) (id : nat) : string -> option nat :=
+  fun q => if String.eqb q p then Some id else r q.
+
+(* the body of the retried module: a list of global definitions, all made in the object the retry runs in *)
+Fixpoint run_defs (id : nat) (defs : list (string * nat)) (h : mheap) : mheap :=
+  match defs with [] => h | (x, v) :: r => run_defs id r (h_set h id x v) end.
+
+Definition retry_fresh (p : string) (defs : list (string * nat)) (s : mstore) : mstore :=
+  {| ms_next := S (ms_next s); ms_reg := r_set (ms_reg s) p (ms_next s);
+     ms_heap := run_defs (ms_next s) defs (h_wipe (ms_heap s) (ms_next s)) |}.
+Definition retry_wipe (p : string) (defs : list (string * nat)) (s : mstore) : mstore :=
+  match ms_reg s p with
+  | Some id => {| ms_next := ms_next s; ms_reg := ms_reg s; ms_heap := run_defs id defs (h_wipe (ms_heap s) id) |}
+  | None => retry_fresh p defs s
+  end.
+Definition retry_reuse (p : string) (defs : list (string * nat)) (s : mstore) : mstore :=
+  match ms_reg s p with
+  | Some id => {| ms_next := ms_next s; ms_reg := ms_reg s; ms_heap := run_defs id defs (ms_heap s) |}
+  | None => retry_fresh p defs s
+  end.
+(* selected by the boolean the translator reads from the registry-hit branch of start_import_impl *)
+Definition retry_variant (reloads : bool) := if reloads then retry_fresh else retry_wipe.
+
+(* a closure = the module object it was created in; calling it reads globals of THAT object *)
+Definition closure_reads (s : mstore) (obj : nat) (x : string) : option nat := ms_heap s obj x.
+
+Lemma run_defs_other : forall defs id h i y, i <> id -> run_defs id defs h i y = h i y.
+Proof.
+  induction defs as [|[x v] r IH]; intros id h i y Hne; cbn; [reflexivity|].
+  rewrite IH by exact Hne. unfold h_set. destruct (Nat.eqb_spec i id); [contradiction|reflexivity].
+Qed.
+
+Theorem fresh_retry_keeps_escaped : forall p defs s obj x,
+  obj < ms_next s -> closure_reads (retry_fresh p defs s) obj x = closure_reads s obj x.
+Proof.
+  intros p defs s obj x Hlt. unfold closure_reads, retry_fresh; cbn.
+  rewrite run_defs_other by lia. unfold h_wipe. destruct (Nat.eqb_spec obj (ms_next s)); [lia|reflexivity].
+Qed.
+
+(* ... for any number of retries, each with its own body *)
+Fixpoint retries_fresh (p : string) (bodies : list (list (string * nat))) (s : mstore) : mstore :=
+  match bodies with [] => s | d :: r => retries_fresh p r (retry_fresh p d s) end.
+Theorem fresh_retries_keep_escaped : forall bodies p s obj x,
+  obj < ms_next s -> closure_reads (retries_fresh p bodies s) obj x = closure_reads s obj x.
+Proof.
+  induction bodies as [|d r IH]; intros p s obj x Hlt; cbn; [reflexivity|].
+  rewrite IH by (cbn; lia). apply fresh_retry_keeps_escaped; exact Hlt.
+Qed.
+
+Local Open Scope string_scope.
+(* the state after `import "m"` failed: object 1 is registered for "m" and holds the global the attempt completed *)
+Definition after_failed_import : mstore :=
+  {| ms_next := 2; ms_reg := r_set (fun _ => None) "m" 1; ms_heap := h_set (fun _ _ => None) 1 "greeting" 7 |}.
+
+Theorem wipe_retry_refuted :
+  closure_reads after_failed_import 1 "greeting" = Some 7 /\
+  closure_reads (retry_wipe "m" [] after_failed_import) 1 "greeting" = None /\
+  closure_reads (retry_fresh "m" [] after_failed_import) 1 "greeting" = Some 7.
+Proof. repeat split; vm_compute; reflexivity. Qed.
+
+Theorem reuse_retry_refuted :
+  closure_reads (retry_reuse "m" [("greeting", 8)] after_failed_import) 1 "greeting" = Some 8 /\
+  closure_reads (retry_fresh "m" [("greeting", 8)] after_failed_import) 1 "greeting" = Some 7.
+Proof. split; vm_compute; reflexivity. Qed.
